@@ -39,7 +39,9 @@ class AnchorEncode(nodes.Node):
     def flatten(self, expander, variables, res):
         arg = []
         evaluate.flatten(self[0], expander, variables, arg)
-        arg = "".join(arg)
+        from mwlib.parser.templ.magics import kill_uniq_markers
+
+        arg = kill_uniq_markers("".join(arg))
 
         # Note: mediawiki has a bug. It tries not to touch
         # colons by replacing '.3A'
